@@ -2,6 +2,20 @@
 `kani`: harness-group descriptors (see kani_unit.py)."""
 
 PROPS = {
+    "C11": {
+        "level": "proof",
+        "verus": ["c11_json_writer"],
+        "kani": [],
+        "assumptions": [],
+        "trusted_base": [],
+    },
+    "C17": {
+        "level": "proof",
+        "verus": ["c17_js_string"],
+        "kani": [],
+        "assumptions": [],
+        "trusted_base": [],
+    },
     "C03": {
         "level": "proof",
         "verus": ["c03_defaulted"],
